@@ -77,6 +77,11 @@ def cases(tier, seed):
                 "wrapped": bool((i // 2) % 4 == 1),
                 # a float hyperparameter that learn() consumes (gamma) configured with an ordinary float range
                 "gamma_range": bool(i % 3 != 1 and (i // 3) % 2 == 0),
+                # a tournament round between the mutation rounds (the mutated values travel on through clone())
+                "select_between": bool(i % 3 == 2),
+                # ... on agents whose optimizers have never stepped (pre-training mutations, evolution during buffer warm-up):
+                # no learn step and no twin comparison anywhere in the case
+                "never_stepped": bool(i % 6 == 2),
                 "seed": int(rng.integers(1 << 30)),
             }
         )
@@ -556,9 +561,11 @@ def run_case(case):
     declared = dict(cfg._vf_declared)
     changed_any = bound_or_lr = False
     m = agentops.make_mutations("rl_hp", seed=case["seed"] % 100000)
-    effect_budget = EFFECT_BUDGET
+    effect_budget = 0 if case.get("never_stepped") else EFFECT_BUDGET
+    if case.get("never_stepped"):
+        rec.hit("cases_with_never_stepped_optimizers")
     for rnd in range(case["rounds"]):
-        if case.get("learn_first") and rnd in (0, 2):
+        if case.get("learn_first") and rnd in (0, 2) and not case.get("never_stepped"):
             try:
                 for ag in pop:
                     zoo.learn(ag, batch_seed=case["seed"] % 4001 + rnd)
@@ -685,7 +692,7 @@ def run_case(case):
                             )
             # "... of every optimizer group that the agent STEPS": a learn step after a learning-rate mutation, with a global
             # step hook that records which optimizer objects learn() really steps
-            if target is not None and str(target).startswith("lr") and case.get("learn_first"):
+            if target is not None and str(target).startswith("lr") and case.get("learn_first") and not case.get("never_stepped"):
                 _stepped_lr_check(rec, pop[k], case, algo, how, target, rnd)
             if control_ok and target in EFFECT_TARGETS:
                 effect_budget -= 1
@@ -709,6 +716,32 @@ def run_case(case):
                 if before[j] != after[j]:
                     diff = [n for n in before[j] if before[j][n] != after[j][n]]
                     rec.violate("other_agents", "mutation_changed_another_agents_value", site, algo=algo, victim=j, actor=k, changed=diff, how=how)
+        if case.get("select_between") and len(pop) >= 2:
+            from agilerl.hpo.tournament import TournamentSelection
+
+            try:
+                for i_, ag in enumerate(pop):
+                    zoo.unwrap(ag).fitness.append(float((i_ * 7 + rnd) % 5))
+                want = [{n: getattr(zoo.unwrap(ag), n) for n in names} for ag in pop]
+                _, pop = TournamentSelection(2, True, len(pop), 1).select(pop)
+                rec.hit("selection_rounds_between_mutations")
+            except CaseTimeout:
+                raise
+            except Exception as e:
+                rec.hit("selection_between_failed(info)")
+                rec.extra["selection_between_failed"] = f"{type(e).__name__}: {str(e)[:100]}"
+            else:
+                # "the new value is what the agent subsequently uses" also holds for the copies selection hands on
+                for ag in pop:
+                    a2 = zoo.unwrap(ag)
+                    for n in names:
+                        if not n.startswith("lr"):
+                            continue
+                        for g in _group_lrs(ag, n):
+                            rec.hit("lr_group_checks")
+                            if not _same_number(g, getattr(a2, n)):
+                                rec.violate("lr_effect", "optimizer_group_lr_differs_from_agent_value", "TournamentSelection.select after rl_hp mutation",
+                                            algo=algo, name=n, group_lr=g, agent_value=getattr(a2, n), how=how)
     rec.nontrivial = changed_any and bound_or_lr and len(pop) >= 2
     return rec.result()
 
